@@ -7,6 +7,49 @@ Import ListNotations.
 Open Scope nat_scope.
 Set Default Proof Using "All".
 
+Lemma flat_map_length_sum {A B} (h : A -> list B) (len : A -> nat) l :
+  (forall x, In x l -> length (h x) = len x) ->
+  length (flat_map h l) = fold_right (fun x acc => len x + acc) 0 l.
+Proof.
+  induction l as [|x t IH]; intros H; [reflexivity|].
+  cbn [flat_map fold_right]. rewrite app_length, (H x (or_introl eq_refl)), IH; [reflexivity|].
+  intros y Hy. apply H. right. exact Hy.
+Qed.
+
+Lemma Forall_flat_map {A B} (P : B -> Prop) (h : A -> list B) l :
+  (forall x, In x l -> Forall P (h x)) -> Forall P (flat_map h l).
+Proof.
+  induction l as [|x t IH]; intros H; [constructor|]. cbn [flat_map]. apply Forall_app. split.
+  - apply H. left. reflexivity.
+  - apply IH. intros y Hy. apply H. right. exact Hy.
+Qed.
+
+Lemma flat_map_map_in {A B C} (h : A -> list B) (h' : A -> list C) (F : C -> B) l :
+  (forall x, In x l -> h x = map F (h' x)) -> flat_map h l = map F (flat_map h' l).
+Proof.
+  induction l as [|x t IH]; intros H; [reflexivity|].
+  cbn [flat_map]. rewrite map_app, (H x (or_introl eq_refl)), IH; [reflexivity|].
+  intros y Hy. apply H. right. exact Hy.
+Qed.
+
+Lemma filter_length_le1 {A} (p : A -> bool) (l : list A) :
+  NoDup l -> (forall x y, In x l -> In y l -> p x = true -> p y = true -> x = y) -> length (filter p l) <= 1.
+Proof.
+  induction 1 as [|x l Hx Hnd IH]; intros Hu; [cbn; lia|].
+  cbn [filter]. destruct (p x) eqn:E.
+  - cbn [length]. assert (Hnone : filter p l = []).
+    { apply filter_none. intros y Hy. destruct (p y) eqn:Ey; [|reflexivity]. exfalso.
+      assert (x = y) by (apply Hu; [left; reflexivity | right; exact Hy | exact E | exact Ey]). subst. contradiction. }
+    rewrite Hnone. cbn. lia.
+  - apply IH. intros a b Ha Hb. apply Hu; right; assumption.
+Qed.
+
+Lemma filter_length_ge1 {A} (p : A -> bool) (l : list A) x : In x l -> p x = true -> 1 <= length (filter p l).
+Proof.
+  intros Hin Hp. assert (H : In x (filter p l)) by (apply filter_In; split; assumption).
+  destruct (filter p l); [destruct H | cbn; lia].
+Qed.
+
 Section F0V.
 Variable fb : flat.
 Hypothesis HF : frag0 fb = true.
@@ -57,14 +100,6 @@ Proof.
   - unfold f0_leftover in *. lia.
 Qed.
 
-Lemma flat_map_length_sum {A B} (h : A -> list B) (len : A -> nat) l :
-  (forall x, In x l -> length (h x) = len x) ->
-  length (flat_map h l) = fold_right (fun x acc => len x + acc) 0 l.
-Proof.
-  induction l as [|x t IH]; intros H; [reflexivity|].
-  cbn [flat_map fold_right]. rewrite app_length, (H x (or_introl eq_refl)), IH; [reflexivity|].
-  intros y Hy. apply H. right. exact Hy.
-Qed.
 
 Lemma decoded_row_length k g : key_ok fb k -> g < n -> length (decoded_row fb k g) = T.
 Proof.
@@ -112,19 +147,56 @@ Proof.
     pose proof (Forall_nth' _ _ t 0%Z Hcd ltac:(lia)) as H. cbv beta in H. lia.
 Qed.
 
-Lemma Forall_flat_map {A B} (P : B -> Prop) (h : A -> list B) l :
-  (forall x, In x l -> Forall P (h x)) -> Forall P (flat_map h l).
-Proof.
-  induction l as [|x t IH]; intros H; [constructor|]. cbn [flat_map]. apply Forall_app. split.
-  - apply H. left. reflexivity.
-  - apply IH. intros y Hy. apply H. right. exact Hy.
-Qed.
 
 Lemma decoded_row_cells k g : key_ok fb k -> g < n ->
   Forall (fun cell => exists l, cell = Some l /\ l < nlevels fb g) (decoded_row fb k g).
 Proof.
   intros Hk Hg. rewrite decoded_row_rounds. apply Forall_flat_map. intros rc Hrc.
   destruct (all_rounds_ok k Hk rc Hrc) as (Hle & _ & Hok). apply round_row_cells; assumption.
+Qed.
+
+(** counting a combination in a block built from a duplicate-free index list *)
+Lemma prod_nodup : NoDup prod.
+Proof.
+  apply product_NoDup. intros l Hl. apply in_map_iff in Hl. destruct Hl as [f [E _]]. subst l.
+  unfold all_levels. apply seq_NoDup.
+Qed.
+
+Lemma count_in_block (perm : list Z) j :
+  NoDup perm -> Forall (fun x => (0 <= x < Z.of_nat q)%Z) perm -> j < q ->
+  count_in (nth j prod []) (map (fun p => nth (Z.to_nat p) prod []) perm) <= 1 /\
+  (In (Z.of_nat j) perm -> count_in (nth j prod []) (map (fun p => nth (Z.to_nat p) prod []) perm) = 1).
+Proof.
+  intros Hnd Hb Hj. unfold count_in.
+  assert (Hf : forall l : list Z, filter (nlist_eqb (nth j prod [])) (map (fun p => nth (Z.to_nat p) prod []) l) =
+               map (fun p => nth (Z.to_nat p) prod []) (filter (fun p => nlist_eqb (nth j prod []) (nth (Z.to_nat p) prod [])) l)).
+  { induction l as [|x t IH]; [reflexivity|]. cbn [map filter].
+    destruct (nlist_eqb (nth j prod []) (nth (Z.to_nat x) prod [])); cbn [map]; rewrite IH; reflexivity. }
+  rewrite Hf, map_length. rewrite Forall_forall in Hb.
+  assert (Hiff : forall p, In p perm -> nlist_eqb (nth j prod []) (nth (Z.to_nat p) prod []) = true -> p = Z.of_nat j).
+  { intros p Hp E. apply nlist_eqb_eq in E. specialize (Hb p Hp).
+    apply (proj1 (NoDup_nth prod []) prod_nodup) in E; [lia | exact Hj | fold q; lia]. }
+  split.
+  - apply filter_length_le1; [exact Hnd|]. intros x y Hx Hy Ex Ey. rewrite (Hiff x Hx Ex), (Hiff y Hy Ey). reflexivity.
+  - intros Hin. apply Nat.le_antisymm.
+    + apply filter_length_le1; [exact Hnd|]. intros x y Hx Hy Ex Ey. rewrite (Hiff x Hx Ex), (Hiff y Hy Ey). reflexivity.
+    + apply (filter_length_ge1 _ _ (Z.of_nat j) Hin). rewrite Nat2Z.id. apply nlist_eqb_eq. reflexivity.
+Qed.
+
+Lemma perm_surjective (perm : list Z) j :
+  NoDup perm -> Forall (fun x => (0 <= x < Z.of_nat q)%Z) perm -> length perm = q -> j < q -> In (Z.of_nat j) perm.
+Proof.
+  intros Hnd Hb Hl Hj. rewrite Forall_forall in Hb.
+  assert (Hnd' : NoDup (map Z.to_nat perm)).
+  { clear Hl. induction Hnd as [|x l Hx Hnd IH]; cbn; constructor.
+    - intros Hin. apply in_map_iff in Hin. destruct Hin as [y [E Hy]].
+      assert (x = y) by (pose proof (Hb x (or_introl eq_refl)); pose proof (Hb y (or_intror Hy)); lia). subst. contradiction.
+    - apply IH. intros y Hy. apply Hb. right. exact Hy. }
+  assert (Hincl : incl (seq 0 q) (map Z.to_nat perm)).
+  { apply NoDup_length_incl; [exact Hnd' | rewrite map_length, seq_length; lia|].
+    intros x Hx. apply in_map_iff in Hx. destruct Hx as [y [E Hy]]. subst x. apply in_seq. specialize (Hb y Hy). lia. }
+  specialize (Hincl j ltac:(apply in_seq; lia)). apply in_map_iff in Hincl. destruct Hincl as [y [E Hy]].
+  replace (Z.of_nat j) with y by (specialize (Hb y Hy); lia). exact Hy.
 Qed.
 
 (** * The candidate as a [tseq] *)
@@ -174,13 +246,6 @@ Proof.
   rewrite (map_via_seq _ (perm_of fb (fst rc) c0) 0%Z), Hpl. reflexivity.
 Qed.
 
-Lemma flat_map_map_in {A B C} (h : A -> list B) (h' : A -> list C) (F : C -> B) l :
-  (forall x, In x l -> h x = map F (h' x)) -> flat_map h l = map F (flat_map h' l).
-Proof.
-  induction l as [|x t IH]; intros H; [reflexivity|].
-  cbn [flat_map]. rewrite map_app, (H x (or_introl eq_refl)), IH; [reflexivity|].
-  intros y Hy. apply H. right. exact Hy.
-Qed.
 
 Lemma decoded_row_crossed i g : nth_error c i = Some g ->
   decoded_row fb k g = map (fun combo => Some (nth i combo 0)) all_combos.
@@ -231,67 +296,10 @@ Proof.
   rewrite (map_nth (fun combo => Some (nth i combo 0))). reflexivity.
 Qed.
 
-(** counting a combination in a block built from a duplicate-free index list *)
-Lemma prod_nodup : NoDup prod.
-Proof.
-  apply product_NoDup. intros l Hl. apply in_map_iff in Hl. destruct Hl as [f [E _]]. subst l.
-  unfold all_levels. apply seq_NoDup.
-Qed.
 
-Lemma filter_length_le1 {A} (p : A -> bool) (l : list A) :
-  NoDup l -> (forall x y, In x l -> In y l -> p x = true -> p y = true -> x = y) -> length (filter p l) <= 1.
-Proof.
-  induction 1 as [|x l Hx Hnd IH]; intros Hu; [cbn; lia|].
-  cbn [filter]. destruct (p x) eqn:E.
-  - cbn [length]. assert (Hnone : filter p l = []).
-    { apply filter_none. intros y Hy. destruct (p y) eqn:Ey; [|reflexivity]. exfalso.
-      assert (x = y) by (apply Hu; [left; reflexivity | right; exact Hy | exact E | exact Ey]). subst. contradiction. }
-    rewrite Hnone. cbn. lia.
-  - apply IH. intros a b Ha Hb. apply Hu; right; assumption.
-Qed.
 
-Lemma filter_length_ge1 {A} (p : A -> bool) (l : list A) x : In x l -> p x = true -> 1 <= length (filter p l).
-Proof.
-  intros Hin Hp. assert (H : In x (filter p l)) by (apply filter_In; split; assumption).
-  destruct (filter p l); [destruct H | cbn; lia].
-Qed.
 
-Lemma count_in_block (perm : list Z) j :
-  NoDup perm -> Forall (fun x => (0 <= x < Z.of_nat q)%Z) perm -> j < q ->
-  count_in (nth j prod []) (map (fun p => nth (Z.to_nat p) prod []) perm) <= 1 /\
-  (In (Z.of_nat j) perm -> count_in (nth j prod []) (map (fun p => nth (Z.to_nat p) prod []) perm) = 1).
-Proof.
-  intros Hnd Hb Hj. unfold count_in.
-  assert (Hf : forall l : list Z, filter (nlist_eqb (nth j prod [])) (map (fun p => nth (Z.to_nat p) prod []) l) =
-               map (fun p => nth (Z.to_nat p) prod []) (filter (fun p => nlist_eqb (nth j prod []) (nth (Z.to_nat p) prod [])) l)).
-  { induction l as [|x t IH]; [reflexivity|]. cbn [map filter].
-    destruct (nlist_eqb (nth j prod []) (nth (Z.to_nat x) prod [])); cbn [map]; rewrite IH; reflexivity. }
-  rewrite Hf, map_length. rewrite Forall_forall in Hb.
-  assert (Hiff : forall p, In p perm -> nlist_eqb (nth j prod []) (nth (Z.to_nat p) prod []) = true -> p = Z.of_nat j).
-  { intros p Hp E. apply nlist_eqb_eq in E. specialize (Hb p Hp).
-    apply (proj1 (NoDup_nth prod []) prod_nodup) in E; [lia | exact Hj | fold q; lia]. }
-  split.
-  - apply filter_length_le1; [exact Hnd|]. intros x y Hx Hy Ex Ey. rewrite (Hiff x Hx Ex), (Hiff y Hy Ey). reflexivity.
-  - intros Hin. apply Nat.le_antisymm.
-    + apply filter_length_le1; [exact Hnd|]. intros x y Hx Hy Ex Ey. rewrite (Hiff x Hx Ex), (Hiff y Hy Ey). reflexivity.
-    + apply (filter_length_ge1 _ _ (Z.of_nat j) Hin). rewrite Nat2Z.id. apply nlist_eqb_eq. reflexivity.
-Qed.
 
-Lemma perm_surjective (perm : list Z) j :
-  NoDup perm -> Forall (fun x => (0 <= x < Z.of_nat q)%Z) perm -> length perm = q -> j < q -> In (Z.of_nat j) perm.
-Proof.
-  intros Hnd Hb Hl Hj. rewrite Forall_forall in Hb.
-  assert (Hnd' : NoDup (map Z.to_nat perm)).
-  { clear Hl. induction Hnd as [|x l Hx Hnd IH]; cbn; constructor.
-    - intros Hin. apply in_map_iff in Hin. destruct Hin as [y [E Hy]].
-      assert (x = y) by (pose proof (Hb x (or_introl eq_refl)); pose proof (Hb y (or_intror Hy)); lia). subst. contradiction.
-    - apply IH. intros y Hy. apply Hb. right. exact Hy. }
-  assert (Hincl : incl (seq 0 q) (map Z.to_nat perm)).
-  { apply NoDup_length_incl; [exact Hnd' | rewrite map_length, seq_length; lia|].
-    intros x Hx. apply in_map_iff in Hx. destruct Hx as [y [E Hy]]. subst x. apply in_seq. specialize (Hb y Hy). lia. }
-  specialize (Hincl j ltac:(apply in_seq; lia)). apply in_map_iff in Hincl. destruct Hincl as [y [E Hy]].
-  replace (Z.of_nat j) with y by (specialize (Hb y Hy); lia). exact Hy.
-Qed.
 
 Lemma round_block_ok rc : In rc (all_rounds k) ->
   block_ok (f0_crossing fb) (fst rc =? q) (round_combos rc).
